@@ -90,7 +90,7 @@ C16Clauses(ev) ==
   CASE ev.ev = "Generate" ->
          \* (samples that are not objects carry no id: only models whose files all hold objects are compared)
          LET objs == ~(\E i \in DOMAIN P.args : P.args[i].model = ev.model /\ P.args[i].kind \in GenFails) IN
-         << <<"C16.assemble", objs, ~objs \/ ev.ids = Assemble(P.args, ev.model)>> >>
+         << <<"C16.assemble", objs, ~objs \/ MatchChunks(ev.ids, Chunks(P.args, ev.model))>> >>
     [] ev.ev = "Exit" ->
          << <<"C16.stdout=lib", ev.status = 0 /\ P.out = "none", ~(ev.status = 0 /\ P.out = "none") \/ ev.codeHash = ev.libHash>>,
             <<"C16.file=lib", ev.status = 0 /\ P.out \in {"old", "absent"},
@@ -115,6 +115,9 @@ TInit == /\ tid \in DOMAIN Traces /\ l = 2 /\ verdict = "ok" /\ drift = 0 /\ liv
             /\ pc = (IF p.fault = "argparse" THEN "exit" ELSE "load")
             /\ status = (IF p.fault = "argparse" THEN 2 ELSE -1)
 \* steps of the model that have no observable boundary in the code (bounded: each moves pc forward once)
+\* a pattern argument produces one Load event per matched file (two): the first is absorbed, the second is the model's Load
+LoadsOf(arg) == Cardinality({i \in DOMAIN hist : hist[i].ev = "Load" /\ hist[i].arg = arg})
+FirstOfGlob(ev) == ev.ev = "Load" /\ ev.arg \in DOMAIN P.args /\ P.args[ev.arg].kind = "glob" /\ LoadsOf(ev.arg) = 0
 NeedsSilent(ev) == \/ (ev.ev = "Validate" /\ pc = "load" /\ nxt > Len(Order))      \* leaving the load loop
                    \/ (ev.ev = "Render" /\ pc = "generate" /\ gen >= Len(ModelOrder(plan.args)))   \* all generate() calls returned
 Silent == /\ verdict = "ok" /\ drift = 0 /\ l # 0 /\ l <= Len(Events) /\ NeedsSilent(Ev)
@@ -127,7 +130,8 @@ Step == /\ verdict = "ok" /\ l # 0 /\ l <= Len(Events) /\ ~(drift = 0 /\ NeedsSi
            /\ live' = live \cup LiveOf(cs)
            /\ hist' = Append(hist, Ev)
            /\ l' = IF f = "ok" THEN l + 1 ELSE l
-           /\ IF drift = 0 /\ Expect(Ev) THEN ModelStep(Ev) /\ drift' = 0
+           /\ IF drift = 0 /\ FirstOfGlob(Ev) THEN UNCHANGED vars /\ drift' = 0
+              ELSE IF drift = 0 /\ Expect(Ev) THEN ModelStep(Ev) /\ drift' = 0
               ELSE UNCHANGED vars /\ drift' = IF drift = 0 THEN l ELSE drift
            /\ UNCHANGED tid
 Finish == /\ l # 0 /\ (verdict # "ok" \/ l > Len(Events))
